@@ -18,15 +18,6 @@ theorem enc_sound (S : Schema) (P : Prog) (hconf : confEnc S P = true) (reg : Re
     ∀ fuel, depthList vs < fuel → encStruct P reg fuel pkt vs acc = some r :=
   fun fuel hd => Proofs.callOK_all hconf reg fuel pkt vs acc r hd hsafe hwire
 
-/-- C03 (encoder half): two accepted programs — e.g. the Go and the Rust output for the same
-DSL — produce byte-identical output. -/
-theorem enc_agree (S : Schema) (P₁ P₂ : Prog) (h₁ : confEnc S P₁ = true) (h₂ : confEnc S P₂ = true)
-    (reg : Registry) (pkt : String) (vs : List Val) (acc r : Bytes)
-    (hsafe : lenSafeVal S (.obj pkt) (.struct vs) = true) (hwire : Wire.enc S reg pkt vs acc = some r)
-    (fuel : Nat) (hd : depthList vs < fuel) :
-    encStruct P₁ reg fuel pkt vs acc = encStruct P₂ reg fuel pkt vs acc := by
-  rw [enc_sound S P₁ h₁ reg pkt vs acc r hsafe hwire fuel hd, enc_sound S P₂ h₂ reg pkt vs acc r hsafe hwire fuel hd]
-
 /-! Non-vacuity: a concrete schema with a length field, a match payload, a fixed string, a
 list and a checksum; a concrete conforming program; a concrete message. -/
 def exS : Schema :=
